@@ -70,6 +70,8 @@ fn main() {
             }
             other => writeln!(out, "{}", other).unwrap(),
         }
+        // flushed per line: if the code under test takes the process down, the orchestrator must know where
+        out.flush().unwrap();
     }
     out.flush().unwrap();
 }
